@@ -53,8 +53,9 @@ func raceLine(msg string) string {
 		if (strings.HasPrefix(t, "Read at") || strings.HasPrefix(t, "Write at") || strings.HasPrefix(t, "Previous read at") ||
 			strings.HasPrefix(t, "Previous write at") || strings.HasPrefix(t, "Previous atomic") || strings.HasPrefix(t, "Atomic")) && i+1 < len(lines) {
 			f := strings.TrimSpace(lines[i+1])
-			if k := strings.IndexByte(f, '('); k > 0 {
-				f = f[:k]
+			f = strings.TrimSuffix(f, "()")
+			if k := strings.LastIndexByte(f, '/'); k >= 0 {
+				f = f[k+1:]
 			}
 			fr = append(fr, f)
 		}
